@@ -55,6 +55,14 @@ CLAIMS = {
          "Decides the structural half of rename recognition: candidates only at or above the threshold, computed by the structural similarity; pairings one-to-one; 'renamed' stored exactly for pairs not matched by name; the topology that feeds the similarity reads no name of the analysed function (callee names only, self-calls replaced by a name-free token). Symmetry, range and the value 1 of the similarity, and the optimality of greedy pairing are numeric/runtime properties and are listed as not decided.",
          "Numeric properties of TopologySimilarity are out of reach of this technique here and not claimed.",
          "DESIGN.md §4 C19"),
+ "C12": ("must-pass-through over the induction-variable classifier and the trip-count derivation (incl. the check-every-predecessor loop form and threading of boolean flags), operator-set extraction",
+         "Decides the gating of loop summaries for every loop shape: an induction variable is recorded only for integer updates whose every in-loop phi edge is the recognised update, with one start value, an invariant step, ADD/SUB only as basic (SUB negated, phi on the left), and only basic IVs become {start,+,step} in the IR; a computed trip count is stored only for single-exit, top-tested loops whose true edge stays in the loop and whose limit is invariant. The arithmetic of the formulas and wrap-around are runtime matters and not decided.",
+         "Trusts go/ssa's dominator tree and natural-loop structure as used by the tool.",
+         "DESIGN.md §4 C12"),
+ "C17": ("recursion census: strongly connected components of the call graph (CHA; VTA in the thorough tier) each classified by a premise-checking detector (depth+increment, visited set, shrinking argument, structural descent, size-capped trees, memoised expansion); must-pass-through for every work cap",
+         "Decides that every recursive component on the analysis paths has a structural bound and that fan-out > 1 is always paired with a memo, visited set, tree descent or constructor-side size cap (a depth bound alone is rejected as exponential) — the rule that found both blow-ups repaired in /repo (shared-subexpression rendering, nested induction substitution) from the code's shape; all work caps dominate their sinks. The polynomial bound as a number and comparison counts are not decided.",
+         "Call-graph soundness for the module's own code (no reflection/unsafe in production code).",
+         "DESIGN.md §4 C17"),
 }
 
 PENDING_REASON = "static check for this property is not armed yet in this revision of the machinery (see DESIGN.md §4 for the planned structural clauses); not claimed until its rules run silent on the tree and fire on their mutants"
